@@ -282,7 +282,30 @@ pub fn c09_exhaustive(tier: &str, acc: &mut Acc) -> Value {
             }
         }
     }
-    json!({"structured_edge_cases": n, "programs_truncated_at_every_char_boundary": progs, "truncations": cuts})
+    // observation only (not a verdict): parse time for inputs of doubling size
+    let mut timing = vec![];
+    for shape in ["rows", "operator-chain-line", "let-chain"] {
+        let mut series = vec![];
+        for k in 0..6 {
+            let n = 2000usize << k;
+            let text = match shape {
+                "rows" => format!("A B\n{}", "1 (1+2)\n".repeat(n)),
+                // (kept short: a flat chain of n operators builds a tree of depth n and the
+                // parser's recursive conversion exhausts the native stack for very large n -
+                // that is the known finding C09 flat-operator-chain, probed in its own process)
+                "operator-chain-line" => format!("A\n({})\n", "1+".repeat(n / 40) + "1"),
+                _ => format!("A\n{}1\n", "let a = a + 1;\n".repeat(n)),
+            };
+            let t0 = std::time::Instant::now();
+            let ok = guarded(|| ParsedTestCase::from_str(&text).is_ok());
+            series.push(json!({"bytes": text.len(), "micros": t0.elapsed().as_micros() as u64, "result": format!("{ok:?}")}));
+            if ok.is_err() {
+                acc.violation(k as u64, "timing", Finding::new("panic-on-large-input", format!("{shape} with n={n}: {ok:?}")), json!({"shape": shape, "n": n}));
+            }
+        }
+        timing.push(json!({"shape": shape, "series": series}));
+    }
+    json!({"structured_edge_cases": n, "programs_truncated_at_every_char_boundary": progs, "truncations": cuts, "observation_parse_time_vs_size": timing})
 }
 
 // ----------------------------------------------------------------------------------- C12
